@@ -1,30 +1,47 @@
 ------------------------------ MODULE CacheGen ------------------------------
 (* GEN: schedules for the forced-schedule leg.  A schedule is the sequence of  *)
 (* [thread, begin?, operation] steps of a behaviour of Cache.tla (the model    *)
-(* of the code: Deviations = open findings).  Random walks (-simulate) emit    *)
-(* the schedule when no thread can move any more; the Witness* invariants      *)
-(* make TLC's BFS emit the SHORTEST schedule that breaks a property in the     *)
-(* model - a candidate that only counts if the real code reproduces it.        *)
+(* of the code: Deviations = open findings) from an initial configuration      *)
+(* (level, persistor, limit, initially stored part ids).  Random walks         *)
+(* (-simulate) emit the schedule when no thread can move any more; the         *)
+(* Witness* invariants make TLC's BFS emit the SHORTEST schedule that breaks a *)
+(* property in the model - a candidate that only counts if the real code       *)
+(* reproduces it.                                                              *)
 EXTENDS Cache, Json
 
-VARIABLES sched, init0
+CONSTANTS Levels           \* subset of {"cache", "part"}
 
+VARIABLES sched, init0, lvl
+gvars == <<S, sched, init0, lvl>>
+
+\* limit configurations: key limit 1 / 2, size limit 3 chunks (one value fits, two do not),
+\* size limit 1 chunk (every value is larger than the whole cache)
+Limits == IF LimitKind = "all"
+          THEN {[lk |-> "keys", ln |-> 1], [lk |-> "keys", ln |-> 2], [lk |-> "size", ln |-> 3], [lk |-> "size", ln |-> 1]}
+          ELSE {[lk |-> LimitKind, ln |-> LimitN]}
+
+OpsOf(lv) == IF lv = "cache" THEN CacheOps ELSE PartOps
 StepRec(t, b, o) == [th |-> t, begin |-> b, kind |-> o.kind, k |-> o.k, v |-> o.v]
 
-GInit == /\ \E p \in Persistors : \E P \in (IF Level = "part" THEN SUBSET Keys ELSE {{}}) :
-              /\ S = InitState([pers |-> p, lk |-> LimitKind, ln |-> LimitN], P)
-              /\ init0 = P
+GInit == /\ \E lv \in Levels : \E p \in Persistors : \E lim \in Limits :
+            \E P \in (IF lv = "part" THEN SUBSET Keys ELSE {{}}) :
+              \* a fill-on-miss runs in a goroutine of the cache part store: a policy panic there kills the
+              \* process, so that configuration is exercised by the driver's panicprobe instead
+              /\ ~(lv = "part" /\ lim = [lk |-> "size", ln |-> 1])
+              /\ S = InitState([pers |-> p, lk |-> lim.lk, ln |-> lim.ln], P)
+              /\ init0 = P /\ lvl = lv
          /\ sched = <<>>
 GNext == /\ \E t \in Threads :
               \/ \E S2 \in StepSet(S, t) : S' = S2 /\ sched' = Append(sched, StepRec(t, 0, S.op[t]))
-              \/ S.nops[t] < MaxOps /\ \E o \in Ops : \E S2 \in BeginSet(S, t, o) :
+              \/ S.nops[t] < MaxOps /\ \E o \in OpsOf(lvl) : \E S2 \in BeginSet(S, t, o) :
                     S' = S2 /\ sched' = Append(sched, StepRec(t, 1, o))
-         /\ UNCHANGED init0
-GSpec == GInit /\ [][GNext]_<<S, sched, init0>>
+         /\ UNCHANGED <<init0, lvl>>
+GSpec == GInit /\ [][GNext]_gvars
 
-Terminal == \A t \in Threads : /\ StepSet(S, t) = {}
-                               /\ (S.nops[t] >= MaxOps \/ \A o \in Ops : BeginSet(S, t, o) = {})
-Out(w) == PrintT(ToJson([witness |-> w, pers |-> S.cfg.pers, init |-> init0, sched |-> sched]))
+\* no thread can move: every level has an operation that begins without the cache mutex
+Terminal == \A t \in Threads : ~CanStep(S, t) /\ ~(S.pc[t] \in {"idle", "done"} /\ S.nops[t] < MaxOps)
+Out(w) == PrintT(ToJson([witness |-> w, level |-> lvl, pers |-> S.cfg.pers, lk |-> S.cfg.lk, ln |-> S.cfg.ln,
+                         init |-> init0, sched |-> sched]))
 Emit == IF Terminal /\ Len(sched) > 0 THEN Out("") ELSE TRUE
 
 WitnessGet == IF GetReturnsCompletedSet(S) THEN TRUE ELSE Out("InvGet") /\ FALSE
